@@ -652,7 +652,7 @@ def register(M):
     def map_new(ev, fr, prog, fty, args, cx):
         ktid = fty["args"][0]
         if prog.fieldless_enum_variants(ktid) is not None:
-            return M.empty_emap(prog, ktid)
+            return M.empty_emap(prog, ktid, ev, fty["args"][1] if len(fty["args"]) > 1 else None)
         return mk("empty_map")
 
     @reg("std::collections::HashMap::<K, V, S, A>::insert")
@@ -716,10 +716,23 @@ def register(M):
             ev.branch(g, run, lambda: tm.UNIT)
         return ent
 
-    def entry_or_insert_impl(ev, ent, make_default):
+    def entry_or_insert_impl(ev, ent, make_default, is_default=False):
         pl = place_of_ref(ent.a[0])
         k = ent.a[1]
         m = ev.read(pl)
+        if is_default and m.op == "emap" and M.emap_default(m) is not None:
+            d = M.emap_default(m)
+            if make_default() is d:
+                # absent slots already hold the default: only the presence flag changes
+                for kc, cond in entry_keys(ev, m, k):
+                    cur = ev.read(pl)
+                    i = M.key_index(cur, kc)
+                    dc = ev.decide(cond)
+                    if dc is False:
+                        continue
+                    newp = tm.or_(cond, cur.a[1 + 2 * i]) if dc is None else tm.TRUE
+                    ev.write(pl, M.emap_set(cur, i, newp, cur.a[2 + 2 * i]))
+                return pl.ext(("mapval", k)).ref()
         for kc, cond in entry_keys(ev, m, k):
             present = M.map_contains(ev, ev.read(pl), kc)
             g = tm.and_(cond, tm.not_(present))
@@ -745,7 +758,7 @@ def register(M):
     def entry_or_default(ev, fr, prog, fty, args, cx):
         ent = args[0]
         vt = fty["args"][1]
-        return entry_or_insert_impl(ev, ent, lambda: M.default_of(ev, prog, vt))
+        return entry_or_insert_impl(ev, ent, lambda: M.default_of(ev, prog, vt), is_default=True)
 
     @reg("std::collections::HashMap::<K, V, S, A>::iter", "std::collections::HashSet::<T, S, A>::iter",
          "core::slice::<impl [T]>::iter", "std::iter::IntoIterator::into_iter")
